@@ -993,6 +993,13 @@ def decision_paths(body, max_paths=4000):
         if k == "switch":
             e = operand(env, t["discr"])
             vals = tuple(x[0] for x in t["targets"])
+            if isinstance(e, tuple) and len(e) == 2 and e[0] == "const" and isinstance(e[1], (int, bool)):
+                # the discriminant is a constant on this path (e.g. `x = false` on one arm of `a && b`): only one successor is feasible
+                tgs = [tg for v, tg in t["targets"] if v == int(e[1])]
+                tg = tgs[0] if tgs else t["otherwise"]
+                if tg not in seen:
+                    rec(tg, conds, seen | {tg}, env)
+                return
             for v, tg in t["targets"]:
                 if tg not in seen:
                     rec(tg, conds + [(e, v)], seen | {tg}, env)
